@@ -12,31 +12,36 @@ structure WInv (t : T) (E : List Nat) : Prop where
 
 theorem canAttach_cases (t : T) (c : Change) (b : Bool) :
     (canAttach t c b = (true, false, []) ∧ (∀ p ∈ c.prevs, t.has p = true) ∧ t.has c.snap = true) ∨
-    (canAttach t c b = (false, true, []) ∧ (∀ p ∈ c.prevs, t.has p = true) ∧ t.has c.snap = false) ∨
+    (canAttach t c b = (false, true, []) ∧
+      (((∀ p ∈ c.prevs, t.has p = true) ∧ t.has c.snap = false) ∨ c.prevs = [])) ∨
     (∃ w, canAttach t c b = (false, false, w) ∧ (∃ p ∈ c.prevs, t.has p = false) ∧
       (b = true → ∀ p ∈ c.prevs, t.has p = false → (p, c.id) ∈ w)) := by
   unfold canAttach
   simp only
-  by_cases hm : (c.prevs.filter (fun p => !t.has p)).isEmpty = true
-  · have hm' : c.prevs.filter (fun p => !t.has p) = [] := by simpa using hm
-    have hall : ∀ p ∈ c.prevs, t.has p = true := by
-      intro p hp
-      have := (List.filter_eq_nil_iff.mp hm') p hp
-      simpa using this
-    cases hs : t.has c.snap
-    · right; left; simp [hm']; exact hall
-    · left; simp [hm']; exact hall
-  · right; right
-    have hne : c.prevs.filter (fun p => !t.has p) ≠ [] := by simpa using hm
-    obtain ⟨p, hp⟩ := List.exists_mem_of_ne_nil _ hne
-    have hp' := List.mem_filter.mp hp
-    refine ⟨if b then (c.prevs.filter (fun p => !t.has p)).map (fun p => (p, c.id)) else [], by simp [hm],
-      ⟨p, hp'.1, by simpa using hp'.2⟩, ?_⟩
-    intro hb q hq hqf
-    subst hb
-    simp only [if_true]
-    exact List.mem_map.mpr ⟨q, List.mem_filter.mpr ⟨hq, by simp [hqf]⟩, rfl⟩
-
+  by_cases hemp : c.prevs.isEmpty = true
+  · right; left
+    have : c.prevs = [] := by simpa using hemp
+    simp [hemp, this]
+  · have hemp' : c.prevs.isEmpty = false := by simpa using hemp
+    by_cases hm : (c.prevs.filter (fun p => !t.has p)).isEmpty = true
+    · have hm' : c.prevs.filter (fun p => !t.has p) = [] := by simpa using hm
+      have hall : ∀ p ∈ c.prevs, t.has p = true := by
+        intro p hp
+        have := (List.filter_eq_nil_iff.mp hm') p hp
+        simpa using this
+      cases hs : t.has c.snap
+      · right; left; simp [hm', hemp']; exact Or.inl hall
+      · left; simp [hm', hemp']; exact hall
+    · right; right
+      have hne : c.prevs.filter (fun p => !t.has p) ≠ [] := by simpa using hm
+      obtain ⟨p, hp⟩ := List.exists_mem_of_ne_nil _ hne
+      have hp' := List.mem_filter.mp hp
+      refine ⟨if b then (c.prevs.filter (fun p => !t.has p)).map (fun p => (p, c.id)) else [], by simp [hm, hemp'],
+        ⟨p, hp'.1, by simpa using hp'.2⟩, ?_⟩
+      intro hb q hq hqf
+      subst hb
+      simp only [if_true]
+      exact List.mem_map.mpr ⟨q, List.mem_filter.mpr ⟨hq, by simp [hqf]⟩, rfl⟩
 
 abbrev push (t : T) (c : Change) : T :=
   { t with att := t.att ++ [c], added := t.added ++ [c.id], unatt := t.unatt.filter (·.id != c.id) }
@@ -112,8 +117,10 @@ theorem Extends.has_mono {batch : List Change} {t t' : T} (h : Extends batch t t
 theorem ids_inj_of_nodup {l : List Change} (h : (l.map (·.id)).Nodup) {a b : Change} (ha : a ∈ l) (hb : b ∈ l)
     (e : a.id = b.id) : a = b := nodup_ids_inj h a ha b hb e
 
-/-- the snapshot of a batch member is attached as soon as all its previous ids are (it is one of their ancestors) -/
+/-- every batch member not attached from the start has previous ids (only the root has none), and its snapshot is attached as soon as all
+its previous ids are (it is one of their ancestors) -/
 def SnapOK (batch : List Change) (t0 : T) : Prop :=
+  (∀ c ∈ batch, c.prevs ≠ [] ∨ t0.has c.id = true) ∧
   ∀ t', Inv batch t' → (∀ x, t0.has x = true → t'.has x = true) →
     ∀ c ∈ batch, (∀ p ∈ c.prevs, t'.has p = true) → t'.has c.snap = true
 
@@ -172,7 +179,7 @@ theorem attach_w (batch : List Change) (t0 : T) (hs : SnapOK batch t0) :
               rcases List.mem_cons.mp (by simpa using hmem : u.id ∈ w :: (ws ++ E')) with e | e
               · exact hun (ids_inj_of_nodup h.w.w3 hu hnm (by rw [e, hnw]))
               · exact hue e
-            rcases canAttach_cases s n false with ⟨hca, hp, _⟩ | ⟨hca, hp, hsn⟩ | ⟨w', hca, hmiss, _⟩
+            rcases canAttach_cases s n false with ⟨hca, hp, _⟩ | ⟨hca, ⟨hp, hsn⟩ | hemp⟩ | ⟨w', hca, hmiss, _⟩
             · rw [hca]; simp only
               have hlen' : (s.unatt.filter (·.id != n.id)).length < f := by
                 have : (s.unatt.filter (·.id != n.id)).length < s.unatt.length := by
@@ -189,8 +196,12 @@ theorem attach_w (batch : List Change) (t0 : T) (hs : SnapOK batch t0) :
               have := List.length_filter_le (fun x : Change => x.id != n.id) s.unatt
               omega
             · exfalso
-              have := hs s h.inv h.mono n hnb hp
+              have := hs.2 s h.inv h.mono n hnb hp
               rw [this] at hsn; exact Bool.noConfusion hsn
+            · exfalso
+              rcases hs.1 n hnb with h' | h'
+              · exact h' hemp
+              · rw [h.mono _ h'] at hnh; exact Bool.noConfusion hnh
             · rw [hca]; simp only
               refine ⟨⟨h.inv, ⟨?_, h.w.w2, h.w.w3⟩, h.mono⟩, Extends.refl _ _, Nat.le_refl _, fun u hu => Or.inl hu⟩
               intro u hu hue
@@ -247,14 +258,18 @@ theorem addOne_w (U : List Change) (t0 : T) (hs : SnapOK U t0) (t : T) (c : Chan
   unfold addOne
   split
   · rename_i h; rw [h] at hroot; simp at hroot
-  · rcases canAttach_cases t c true with ⟨hca, hp, _⟩ | ⟨hca, hp, hsn⟩ | ⟨w', hca, hmiss, hw'⟩
+  · rcases canAttach_cases t c true with ⟨hca, hp, _⟩ | ⟨hca, ⟨hp, hsn⟩ | hemp⟩ | ⟨w', hca, hmiss, hw'⟩
     · rw [hca]; simp only
       obtain ⟨r1, r2, r3, _, r5⟩ := attach_w U t0 hs (t.unatt.length + 1) t c [] hst.weaken hc hnot hp
         (by have := List.length_filter_le (fun x : Change => x.id != c.id) t.unatt; omega)
       exact ⟨r1, r2, Or.inl r3, r5⟩
     · exfalso
-      have := hs t hst.inv hst.mono c hc hp
+      have := hs.2 t hst.inv hst.mono c hc hp
       rw [this] at hsn; exact Bool.noConfusion hsn
+    · exfalso
+      rcases hs.1 c hc with h' | h'
+      · exact h' hemp
+      · rw [hst.mono _ h'] at hnot; exact Bool.noConfusion hnot
     · rw [hca]; simp only
       have hcun : c.id ∉ t.unatt.map (·.id) := by
         intro h
